@@ -400,7 +400,7 @@ func (m *mon) both(body, origin string, allFramings bool) {
 	}
 }
 
-var alphabet = []byte{0x00, '\n', ':', '>', 62, 63, 64, 65, 95, 125, 126, 127, 128, 255}
+var alphabet = []byte{0x00, '\n', ':', '<', '>', 63, 64, 65, 95, 125, 126, 127, 128, 255}
 var boundary = []byte{0x00, '\n', ':', 62, 63, 64, 94, 125, 126, 127, 255}
 
 // baseGraphs is the set of graphs whose reference encodings are mutated.
@@ -784,7 +784,7 @@ func run(c *engine.Ctx) {
 			})
 		}
 	}
-	perStream := c.Pick(250, 4000)
+	perStream := c.Pick(250, 8000)
 	for _, n := range []int{0, 1, 2, 3, 4, 5, 6, 7, 8, 9, 10, 12, 15, 16, 17, 18, 24, 31, 32, 33, 47, 62, 63, 64, 65, 100, 127, 128, 129, 1000, 4095, 4096} {
 		n := n
 		cnt := perStream
